@@ -512,9 +512,16 @@ func (e *escaper) escapeTemplate(c context, n *parse.TemplateNode) context {
 // mangle produces an identifier that includes a suffix that distinguishes it
 // from template names mangled with different contexts.
 func mangle(c context, templateName string) string {
-	// The mangled name for the default context is the input templateName.
+	// The mangled name for the default context is the input templateName. The default
+	// context includes the content of all elements in which actions are sanitized like in
+	// a context without element.
 	if c.state == stateText && len(c.element.names) == 0 {
-		return templateName
+		if c.element.name == "" {
+			return templateName
+		}
+		if sc, err := sanitizationContextForElementContent(c.element.name); err == nil && sc == sanitizationContextHTML {
+			return templateName
+		}
 	}
 	s := templateName + "$htmltemplate_" + c.state.String()
 	if c.delim != 0 {
